@@ -106,7 +106,7 @@ InScope(id, pre, ev) ==
     [] OTHER -> FALSE
 
 \* deterministic properties: every component except `dirty` must equal the specification's
-DetProps == {"C05","C06","C07","C08","C13","C14","C18","C19","C20","ALL"}
+DetProps == {"C05","C07","C08","C13","C14","C18","C19","C20","ALL"}
 NoDirty == AllFields \ {"dirty"}
 
 -----------------------------------------------------------------------------
@@ -117,10 +117,18 @@ RowsOf(s) == 0..(s.L - 1)
 Bad_Det(pre, ev, post) == DiffFields(Apply(pre, ev), post, NoDirty)
 
 \* C04: a combining mark at the pending-wrap column may wrap first or not (freedom point)
+\* and a wrap from below the scrolling region may land on the bottom margin (the code) or on the next line
 Bad_C04(pre, ev, post) ==
   LET a == DiffFields(Apply(pre, ev), post, NoDirty) IN
-  IF a = {} THEN {} ELSE
-    LET b == DiffFields(ApplyZ(pre, ev, FALSE), post, NoDirty) IN IF b = {} THEN {} ELSE a
+  IF a = {} THEN {}
+  ELSE IF \E zw \in BOOLEAN, xt \in BOOLEAN : DiffFields(ApplyX(pre, ev, zw, xt), post, NoDirty) = {} THEN {} ELSE a
+
+\* C06: everything but dirty; index / reverse index with the cursor outside the region may move onto the
+\* margin (the code) or one line towards the screen edge (freedom point)
+Bad_C06(pre, ev, post) ==
+  LET a == DiffFields(Apply(pre, ev), post, NoDirty) IN
+  IF a = {} THEN {}
+  ELSE IF DiffFields(ApplyX(pre, ev, TRUE, TRUE), post, NoDirty) = {} THEN {} ELSE a
 
 \* C12: everything but dirty; DECCOLM "erases the screen" - the statement does not say with which rendition
 \* (that is C07's business), so after a DECCOLM switch the grid is compared by cell text only
@@ -166,6 +174,7 @@ Bad_C10(pre, ev, post, disp) ==
 Bad(id, pre, ev, post, disp) ==
   CASE id \in DetProps -> Bad_Det(pre, ev, post)
     [] id = "C04" -> Bad_C04(pre, ev, post)
+    [] id = "C06" -> Bad_C06(pre, ev, post)
     [] id = "C10" -> Bad_C10(pre, ev, post, disp)
     [] id = "C12" -> Bad_C12(pre, ev, post)
     [] id = "C15" -> Bad_C15(pre, ev, post)
